@@ -308,7 +308,7 @@ def check_imm_size(imm, size):
         return uint16(imm)
     elif size == s16 and -0x8000 <= j < 0x8000:
         return int16(imm)
-    elif size == u32 and -uint32.limit <= i < uint32.limit:
+    elif size == u32 and -uint32.limit//2 <= i < uint32.limit:
         return uint32(imm)
     elif size == s32 and -uint32.limit/2 <= j < uint32.limit/2:
         return int32(imm)
